@@ -214,6 +214,17 @@ static void case_q(Rng& r) {
 
   Ops<S> o;
   o.fam = fam;
+  {
+    // state class of its own: the sketch retains items that compare equal but are not identical (-0.0 / +0.0)
+    std::vector<T> its;
+    for (auto it = sk->begin(); it != sk->end(); ++it) its.push_back((*it).first);
+    std::sort(its.begin(), its.end(), [](const T& a, const T& b) { return a < b; });
+    bool mixed = false;
+    for (size_t i = 1; i < its.size() && !mixed; ++i) mixed = !(its[i - 1] < its[i]) && item_str(its[i - 1]) != item_str(its[i]);
+    // (sorting leaves equivalent items adjacent but in any order: look at whole runs)
+    for (size_t i = 0; i < its.size() && !mixed; ) { size_t j = i + 1; while (j < its.size() && !(its[i] < its[j])) { if (item_str(its[i]) != item_str(its[j])) mixed = true; ++j; } i = j; }
+    if (mixed) { o.fam += "|equivalent-nonidentical-items"; count(std::string(K::name()) + "_equivalent_nonidentical_items"); }
+  }
   o.to_bytes = [](const S& s, unsigned h) { return to_std_bytes(s.serialize(h, SD())); };
   o.to_stream = [](const S& s, std::ostream& os) { s.serialize(os, SD()); };
   o.from_bytes = [](const void* p, size_t n2) { return S::deserialize(p, n2, SD()); };
